@@ -59,7 +59,7 @@ PULSE = dict(k="const_pulse", d=52, amp=2.0, det=-1.0, phase=0.0)
 
 ALPHABET = ["declare", "declare_dup_name", "detmap", "slm", "magfield", "target",
             "add", "add_eom", "enable_eom", "modify_eom", "disable_eom", "delay",
-            "align", "phase_shift", "add_dmm", "measure", "declare_var", "use_var",
+            "align", "phase_shift", "add_dmm", "measure", "declare_var", "use_var", "use_var_refused",
             "get_duration", "current_phase_ref", "estimate", "sample", "draw"]
 
 
@@ -162,6 +162,12 @@ class M6:
         if k == "declare_var":
             name = f"v{len(self.vars)}"
             return dict(op="declare_var", name=name), "accept"
+        if k == "use_var_refused":
+            # a call that uses a variable but must be refused for another reason (unknown
+            # channel): the typestate must not change
+            if not self.vars:
+                return None
+            return dict(op="delay", ch="ghost", d={"var": self.vars[a % len(self.vars)]}), "refuse"
         if k == "measure":
             basis = "XY" if self.mode == "xy" else "ground-rydberg"
             if self.mode is None:
@@ -456,6 +462,7 @@ SMALL_PARAM = [
     dict(kind="declare", a=0, b=0), dict(kind="declare_var", a=0, b=0), dict(kind="use_var", a=0, b=0),
     dict(kind="detmap", a=0, b=0), dict(kind="detmap", a=1, b=0), dict(kind="slm", a=0, b=0),
     dict(kind="add_dmm", a=0, b=0), dict(kind="add", a=0, b=1), dict(kind="measure", a=0, b=0),
+    dict(kind="use_var_refused", a=0, b=0),
 ]
 
 
